@@ -456,7 +456,7 @@ fn main() {
             json!({"Member": {"ty": 0, "form": 1, "start": -128, "end": 127, "raw": u64::MAX}}),
         );
     }
-    ctx.prop_split("membership-wide-types", "rand-case", ctx.n(150_000, 3_000_000), ctx.parts(), wide_member().boxed(), run_case);
+    ctx.prop_split("membership-wide-types", "rand-case", ctx.n(150_000, 30_000_000), ctx.parts(), wide_member().boxed(), run_case);
     // (b)
     let reach_cases = (0..2u8).flat_map(|ty| {
         let (mn, mx) = bounds(ty);
@@ -464,7 +464,7 @@ fn main() {
     });
     ctx.exhaustive("reachability-8bit", "rand-case", "every start of i8/u8 x every length 1..=64, both a..b and a..=b", true, reach_cases, run_case);
     // (c)
-    ctx.prop_split("float-ranges", "rand-case", ctx.n(200_000, 4_000_000), ctx.parts(), float_case().boxed(), run_case);
+    ctx.prop_split("float-ranges", "rand-case", ctx.n(200_000, 40_000_000), ctx.parts(), float_case().boxed(), run_case);
     // the documented failing inputs of the pinned tree, as plain cases
     // (d)
     ctx.prop("determinism", "rand-case", ctx.n(300, 6_000), any::<u64>().prop_map(|seed| Case::Determinism { seed }), run_case);
